@@ -1,5 +1,4 @@
 import itertools
-import sys
 import typing
 import warnings
 from ast import *
@@ -243,14 +242,17 @@ def _unparse_JoinedStr(node: JoinedStr, qm: typing.Literal["'", '"']) -> unparse
             s = s.replace("{", "{{").replace("}", "}}")
             contents.append(s)
         elif isinstance(v, FormattedValue):
-            contents.append((yield PREC_FORMAT_EXPR_SLOT, v))
+            field = yield PREC_FORMAT_EXPR_SLOT, v
+            if "\\" in field:
+                # the converted script should run on python 3.8+, where
+                # a replacement field can not include a back slash
+                raise SyntaxError("Back slash is included in a f-string expression")
+            contents.append(field)
     return "".join(contents)
 
 
 def unparse_JoinedStr(node: JoinedStr, qm: typing.Literal["'", '"']) -> unparse_gen_t:
     contents = yield from _unparse_JoinedStr(node, qm)
-    if sys.version_info < (3, 12) and "\\" in contents:  # pragma: no cover
-        raise SyntaxError("Back slash is included in a f-string")
     return f"f{qm}{contents}{qm}"
 
 
